@@ -751,6 +751,7 @@ def generate(rng, index, tier):
     evals = list(subj.evals)
     p_eval = rng.uniform(0.3, 0.7)
     shadow_fixed = set()
+    shared_cov = None
     want_sens = False
     sens_evals = [e for e in evals if e in ('s1', 'sim_s1', 's1r')]
     for _ in range(n_ops):
@@ -785,7 +786,15 @@ def generate(rng, index, tier):
                 ni = n_ids if kind == 'pop' else 1
                 op['eta'] = [_vals(rng, nd) for _ in range(ni)]
                 op['dlogp'] = [_vals(rng, nd, -1, 1) for _ in range(ni)]
-                op['cov'] = [_vals(rng, 8, 0.0, 0.6) for _ in range(ni)]
+                # covariates usually belong to the individuals, not to the
+                # evaluation: mostly the same matrix for every evaluation
+                if shared_cov is not None and len(shared_cov) == ni \
+                        and rng.random() < 0.75:
+                    op['cov'] = shared_cov
+                else:
+                    op['cov'] = [_vals(rng, 8, 0.0, 0.6) for _ in range(ni)]
+                    if shared_cov is None:
+                        shared_cov = op['cov']
                 op['n_samples'] = ni if kind == 'pop' else rng.randint(1, 4)
             if faults_on and rng.random() < 0.25:
                 op['fault'] = {'at_run': 0, 'kind': 'fail'}
